@@ -26,7 +26,7 @@ for conf in sorted(glob.glob("/tmp/seed-C*/[0-9]/confirm.json")):
             "build": r["build"], "suite_passes_with_change": r["suite_passes_with_change"],
             "demo_fails_with_change": r["demo_fails_with_change"], "demo_passes_without_change": r["demo_passes_without_change"],
         },
-        "checks_fired_at_confirmation": r.get("checks_fired", {}),
+        "detection": "see seeded/RESULTS.json (tools/run_seeded.py runs every registered check against this change)",
     }
     json.dump(out, open(os.path.join(dst, "meta.json"), "w"), indent=1)
-    print("OK  ", name, sorted(r.get("checks_fired", {}).keys()))
+    print("OK  ", name)
